@@ -7,5 +7,6 @@ CONSTANTS
   DevPopOldest = TRUE
   DevTruncAll = FALSE
   DevSwallowBreak = FALSE
+  DevSplitLast = FALSE
 CHECK_DEADLOCK FALSE
 INVARIANT Composition
